@@ -110,3 +110,20 @@ CORPUS += [
     Mut('c13-json-default-differs-from-the-constructor-default', 'torchtree/evolution/tree_likelihood.py', 'TreeLikelihoodModel.from_json', "use_tip_states = data.get('use_tip_states', False)",
         "use_tip_states = data.get('use_tip_states', True)", expect=[('C13.F', 'TreeLikelihoodModel.from_json::default-of-use_tip_states')]),
 ]
+CORPUS += [
+    Mut('c13-ill-formed-elements-skipped', 'torchtree/torchtree.py', '', "            obj = process_objects(element, dic)\n            # now we update",
+        "            try:\n                obj = process_objects(element, dic)\n            except JSONParseError as error:\n                logging.error(error)\n                continue\n            # now we update",
+        mode='text', expect=[('C13.M', 'main::nothing-is-built-or-run-after-a-parse-error')]),
+    Mut('c13-benign-parse-error-reported-with-the-file-name', 'torchtree/torchtree.py', '', "    except JSONParseError as error:\n        logging.error(error)\n",
+        "    except JSONParseError as error:\n        logging.error(error)\n        logging.error('the specification was rejected')\n", mode='text', benign=True),
+    Mut('c13-template-of-a-like-parameter-built-on-the-spot', 'torchtree/core/parameter.py', '', "    @classmethod\n    def from_json(cls, data: dict[str, Any], dic: dict[str, Identifiable]) -> Parameter:\n",
+        "    @staticmethod\n    def _spot(data, dic):\n        return Parameter.from_json_safe(data, dic) if isinstance(data, dict) else process_object(data, dic)\n\n"
+        "    @classmethod\n    def from_json(cls, data: dict[str, Any], dic: dict[str, Identifiable]) -> Parameter:\n", mode='text', expect=[('C13.W', 'core.parameter::Parameter._spot::')]),
+]
+CORPUS += [
+    Mut('c13-clock-factory-hoisted-with-a-fixed-type', 'torchtree/evolution/branch_model.py', '', "    def _sample_shape(self) -> torch.Size:\n        return self._rates.shape[:-1]\n",
+        "    def _sample_shape(self) -> torch.Size:\n        return self._rates.shape[:-1]\n\n    @staticmethod\n    def json_factory(id_: str, tree_model, rate):\n        return {'id': id_, 'type': 'SimpleClockModel', TreeModel.tag: tree_model, 'rate': rate}\n",
+        mode='text', expect=[('C13.F', 'torchtree.evolution.branch_model.StrictClockModel::inherited-factory-type=SimpleClockModel')]),
+    Mut('c13-rejected-proposal-restored-in-place', 'torchtree/inference/mcmc/operator.py', '', "            parameter.tensor = saved_tensor\n", "            parameter.tensor.copy_(saved_tensor)\n", mode='text',
+        expect=[('C13.U', 'operators::')]),
+]
